@@ -827,10 +827,12 @@ pub fn run(args: &Args) -> i32 {
         }
         cases.push(finish("FBuf", "Vec<u8>", &[shape], Some(limit as usize), vec![Op::Query], o, vec!["corpus:H6".into()]));
     }
-    for i in 0..n {
+    // In forked workers: a case that takes the process down (stack overflow, abort) costs that case
+    // only and is reported with its input.
+    cases.extend(out::run_forked(&args.out, n, 12, &|i| {
         let mut r = root.fork(i as u64);
-        cases.push(one_case(&mut r));
-    }
+        one_case(&mut r)
+    }));
     let spec = Spec {
         prop: "C14",
         imports: &["Model.BufTraits"],
